@@ -16,6 +16,7 @@ Theorem C06_needs_key : forall s now q wc s' rep n st,
   handle_resumption s now q wc = (s', rep, SOk n st) ->
   exists e w k ki,
     find_sess (q_sid q) (c_sessions (cache_at s w)) = Some e /\ is_expired e now = false /\
+    is_client_side e = false /\
     e_key e = Some ki /\ k_data ki = k /\ is_aesgcm (k_proto ki) = true /\ lenN k = 32%N /\
     st_key st = Some k /\ n_encryption n = true /\ n_resumed n = true /\
     (forall f p, srv_accept st f = Some p ->
@@ -32,6 +33,16 @@ Theorem C06_keyless_never : forall s now q wc e w,
     (fst (srv_lookup s now (q_sid q)), (if q_want_reply q then ReplySidNotFound else NoReply), SErr).
 Proof. exact keyless_never. Qed.
 Print Assumptions C06_keyless_never.
+
+(* nor is the client-side record of a session this process negotiated as a client of
+   another server (it records OUR identity there, the requester was never authenticated
+   by us): treated exactly like an unknown session *)
+Theorem C06_client_side_never : forall s now q wc e w,
+  snd (srv_lookup s now (q_sid q)) = Some (e, w) -> is_client_side e = true ->
+  handle_resumption s now q wc =
+    (fst (srv_lookup s now (q_sid q)), (if q_want_reply q then ReplySidNotFound else NoReply), SErr).
+Proof. exact client_side_never. Qed.
+Print Assumptions C06_client_side_never.
 
 (* Dead stays dead: once every stored entry under an id is expired (in
    particular when there is none), then through EVERY continuation of the history
